@@ -180,6 +180,8 @@ func (r *DeviceLocal) RemoveRemoteDevice(ski string) {
 	remainingDevices := len(r.remoteDevices)
 	r.mux.Unlock()
 
+	verifPoint("RemoveRemoteDevice.afterDelete", r)
+
 	// only unsubscribe if we don't have any remote devices left
 	if remainingDevices == 0 {
 		_ = Events.unsubscribe(api.EventHandlerLevelCore, r)
